@@ -295,3 +295,66 @@ def bip32_derive(seed: bytes, indices):
         if k == 0:
             return None
     return k
+
+
+# ---------------------------------------------------------------- EIP-712 (independent reference)
+import re as _re
+
+
+def eip712_base(t):
+    """struct name referenced by a member type (through array suffixes) or None for atomic types"""
+    b = t.split("[")[0]
+    if b in ("bool", "address", "string", "bytes") or _re.fullmatch(r"bytes([1-9]|[12]\d|3[0-2])", b) or \
+            (_re.fullmatch(r"u?int(\d+)", b) and int(_re.fullmatch(r"u?int(\d+)", b).group(1)) % 8 == 0
+             and 8 <= int(_re.fullmatch(r"u?int(\d+)", b).group(1)) <= 256):
+        return None
+    return b
+
+
+def eip712_encode_type(types, primary):
+    """types: dict name -> list of (member name, member type)."""
+    deps, todo = set(), [primary]
+    while todo:
+        t = todo.pop()
+        for _, mt in types[t]:
+            b = eip712_base(mt)
+            if b is not None and b != primary and b not in deps:
+                deps.add(b)
+                todo.append(b)
+    out = ""
+    for t in [primary] + sorted(deps, key=lambda s: s.encode("utf8")):
+        out += t + "(" + ",".join("%s %s" % (mt, mn) for mn, mt in types[t]) + ")"
+    return out
+
+
+def eip712_encode_value(types, t, v):
+    """v: int | bool | bytes | str | list | dict(member name -> value). Returns the 32-byte word."""
+    if t.endswith("]"):
+        inner = t[:t.rindex("[")]
+        return keccak256(b"".join(eip712_encode_value(types, inner, x) for x in v))
+    if t == "bool":
+        return (1 if v else 0).to_bytes(32, "big")
+    if t == "address":
+        return b"\x00" * 12 + v
+    if t == "string":
+        return keccak256(v.encode("utf8"))
+    if t == "bytes":
+        return keccak256(v)
+    if eip712_base(t) is None:
+        if t.startswith("bytes"):
+            return v + b"\x00" * (32 - len(v))
+        return (v % (1 << 256)).to_bytes(32, "big")
+    return eip712_hash_struct(types, t, v)
+
+
+def eip712_hash_struct(types, name, value):
+    buf = keccak256(eip712_encode_type(types, name).encode("utf8"))
+    for mn, mt in types[name]:
+        buf += eip712_encode_value(types, mt, value[mn])
+    return keccak256(buf)
+
+
+def eip712_digest(types, primary, domain, message):
+    ds = eip712_hash_struct(types, "EIP712Domain", domain)
+    mh = eip712_hash_struct(types, primary, message)
+    return keccak256(b"\x19\x01" + ds + mh), ds, mh
